@@ -21,6 +21,15 @@ is executed once; `replay` re-executes a history sequentially on a newly created
 no route ever returns an object different from the one an earlier route returned for the same
 (Z, A, charge) of the same table, and the result's Z, A, charge are the ones asked for.
 
+Part 4, table-construction histories.  Pickle / copy / deepcopy find an atom's table by NAME, so what
+they return depends on which tables were constructed under which names.  State = the public table, a
+private table and every table constructed since (all alive); event = construct a table under the name
+still in use, the public name, a fresh name, or a near collision of either (case changed, blank added);
+the library may refuse a name (nothing may change then).  After every event every restore route
+(pickle all protocols, copy, deepcopy, inside a container, inside a formula) and a plain lookup run over
+the atoms of EVERY live table - a fixed set with every kind of atom incl. an ion first created in that
+round, or all atoms of the table - against the ledger of every object returned before.
+
 Every lookup is an expression / statement string that is compiled once and evaluated on the real
 library, so the standalone snippet of a violation is literally the code that was run."""
 import gc, itertools, os, pickle, sys, traceback
@@ -29,21 +38,29 @@ from ..common import Acc, load_pt, rotate, MachineryError
 
 META = dict(
     level="model_checking", engine="E1",
-    technique="complete atom x route sweep + bounded-exhaustive lookup-order exploration on fresh tables",
+    technique="complete atom x route sweep + bounded-exhaustive lookup-order and table-construction histories on fresh tables",
     rule=("sweep: one case per (table configuration, first-touch variant, Z, A, charge) - all 119 elements, "
           "all isotopes, all element ions, all isotope ions - each compared over >= 8 lookup routes, plus one "
           "case per invalid neighbour key (a key whose literal text no atom's fields can match), plus one case per "
           "(element, container-returning route, in-place mutation of the returned container) after which "
           "iteration, isotope lists, el[A], 'A-Sym' lookups, charges and ion[q] are re-checked; sequence "
           "graph: one state per event history on its own copy of a fresh private table, non-trivial = the "
-          "last event obtains a (Z, A, charge) through a route different from the one that produced it first"),
+          "last event obtains a (Z, A, charge) through a route different from the one that produced it first; "
+          "table-construction histories: one state per sequence of construction events (same name as the live private "
+          "table, public name, fresh name, case-changed name, name with a blank, capitalised public name) on a forked "
+          "copy of an interpreter holding the public and one private table; in every state every atom of a fixed set "
+          "(all four kinds, D/T, neutron, last element, one ion created in that round) - or every atom - of every live "
+          "table x lookup, pickle protocols 0..5, copy, deepcopy, in a container (2 ways), in a formula (2 ways) must be "
+          "the object returned before; non-trivial = the event constructed a table"),
     bound=dict(
         quick="complete sweep of the public and one private table x 3 first-touch variants (incl. 7 container "
               "routes x up to 8 mutations per element); all lookup "
-              "histories of length <= 4 over the 12-event alphabet",
+              "histories of length <= 4 over the 14-event alphabet; all table-construction histories of length <= 2 "
+              "over 6 construction events (42), all atoms of all live tables after a first event that constructed a table",
         thorough="complete sweep of public, private and private-vs-private x 3 first-touch variants (incl. the "
                  "container mutations); all "
-                 "lookup histories of length <= 5 over the 12-event alphabet"),
+                 "lookup histories of length <= 5 over the 14-event alphabet; all table-construction histories of "
+                 "length <= 3 (258), all atoms of all live tables after each of the first two events that constructed a table"),
     assumptions=[
         "tables are mass- and density-initialised and no lazy loader runs (loaders that add isotopes are "
         "the E2 part of C08)",
@@ -60,6 +77,11 @@ META = dict(
         "change what the table iterates over or resolves (identity and 'visits isotopes by increasing A exactly "
         "once' are properties of the table, not of what a caller did to a returned value); immutable return "
         "values (tuples) are counted as immune; the table's own `properties` list is not a lookup result",
+        "table construction: the library may refuse any name except a fresh, clearly distinct one (a refusal must leave "
+        "every live table as it was) and may hand out the existing table for a name in use; whenever a construction "
+        "succeeds, the atoms of every table that is still alive - the earlier table of the same name included - must "
+        "still be restored to the very same objects; tables are never dropped; whether atoms of distinct tables are "
+        "distinct objects is not judged here",
     ],
     level_text=("every atom of the finite tables and every history of first lookups within the depth bound is "
                 "executed on the real implementation; identity is decided with `is`, never by equality"),
@@ -67,7 +89,8 @@ META = dict(
                 "interpreter; the list of valid keys is read from the table itself (iteration, el.isotopes, "
                 "el.ions) and cross-checked against scans of el[A] and table[Z]; signatures name kind + route "
                 "(identity:<kind>:<route>, fields:..., route-raises:..., accepts-invalid:<route>:<class>, "
-                "iteration:...), the exact atom / history is in the case"),
+                "iteration:..., identity-after-table-construction:<class of the last construction that succeeded>:"
+                "<restore|lookup>), the exact atom / history is in the case"),
 )
 
 PROTOS = tuple(range(pickle.HIGHEST_PROTOCOL + 1))
@@ -1132,6 +1155,271 @@ def _loader_path(args):
     return acc
 
 
+# ------------------------------------------------------------------------------------------------
+# part 4: histories of TABLE CONSTRUCTION.  Atoms find their way home through the table NAME
+# (`__reduce__` stores it, PRIVATE_TABLES resolves it), so what pickle / copy / deepcopy return depends on
+# which tables were constructed, under which names, in which order.  State = P (public), T (private,
+# SEQ_TABLE) and every table constructed since; every table stays alive.  Event = construct a table under a
+# given name (mass + density initialised when the library accepts the name).  After every event the
+# battery runs over every live table: lookup, pickle (all protocols), copy, deepcopy, inside a container,
+# inside a formula - over a fixed set of atoms of each kind (incl. an ion first created in this round), or
+# over ALL atoms of the table (`full`).  The ledger keeps every object ever returned for (table, Z, A, q).
+TABLE_EVENTS = [
+    ("same-name", "T_NAME"),                   # the name of the private table that is still in use
+    ("public-name", "core.PUBLIC_TABLE_NAME"),
+    ("other-name", "'r00000'"),
+    ("case-changed-name", "T_NAME.upper()"),   # near collisions: distinct names today; a library may refuse them
+    ("name-with-space", "T_NAME + ' '"),
+    ("near-public-name", "core.PUBLIC_TABLE_NAME.capitalize()"),
+]
+TABLE_EVENT = dict(TABLE_EVENTS)
+TAB_SETUP = """import pickle, copy
+import periodictable as pt
+import periodictable.formulas
+from periodictable import core, mass, density, formula
+T_NAME = %(name)r
+live = [('P', pt.elements, core.PUBLIC_TABLE_NAME)]          # label, table, name: every table stays alive
+def construct(label, name):
+    try:
+        t = core.PeriodicTable(name)
+    except Exception as e:
+        return e                                # the name is refused: nothing may have changed
+    if any(t is x for _, x, _ in live):
+        return None                             # the library handed out the table that exists under the name
+    mass.init(t); density.init(t)
+    live.append((label, t, name))
+    return t
+T = construct('T', T_NAME)
+def atomkey(a):
+    return (a.number, getattr(a, 'isotope', 0), getattr(a, 'charge', 0))
+def groups(tab, rnd, full):
+    if full:                                    # every atom of the table, one group per element
+        out = []
+        for el in tab:
+            Z = el.number
+            g = [((Z, 0, 0), el)] + [((Z, 0, q), el.ion[q]) for q in el.ions]
+            for iso in el:
+                g.append(((Z, iso.isotope, 0), iso))
+                g.extend(((Z, iso.isotope, q), iso.ion[q]) for q in el.ions)
+            out.append(g)
+        return out
+    fe = tab[26]
+    c = [q for q in fe.ions if q != 2][rnd]     # an ion that is created in this round
+    return [[((26, 0, 0), fe), ((26, 56, 0), fe[56]), ((26, 0, 2), fe.ion[2]), ((26, 56, 2), fe[56].ion[2]),
+             ((26, 0, c), fe.ion[c]), ((26, 56, c), fe[56].ion[c]),
+             ((1, 2, 0), tab.D), ((1, 2, 1), tab.D.ion[1]), ((1, 3, 0), tab.T), ((1, 0, 0), tab[1]), ((1, 1, 0), tab[1][1]),
+             ((1, 0, -1), tab[1].ion[-1]), ((0, 0, 0), tab[0]), ((0, 1, 0), tab[0][1]), ((8, 0, -2), tab[8].ion[-2]),
+             ((8, 18, -2), tab[8][18].ion[-2]), ((118, 0, 0), tab[118])]]
+def battery(rnd, full):
+    obs = []
+    def attempt(route, k, fn):
+        try:
+            obs.append((route, k, fn()))
+        except Exception as e:
+            obs.append((route, k, e))
+    for label, tab, _ in list(live):
+        for g in groups(tab, rnd, full):
+            for k3, a in g:
+                k = (label,) + k3
+                obs.append(('lookup', k, a))
+                for p in range(pickle.HIGHEST_PROTOCOL + 1):
+                    attempt('pickle', k, lambda: pickle.loads(pickle.dumps(a, p)))
+                attempt('copy', k, lambda: copy.copy(a))
+                attempt('deepcopy', k, lambda: copy.deepcopy(a))
+                attempt('deepcopy-in-container', k, lambda: copy.deepcopy({'a': [a, a]})['a'][1])
+                attempt('pickle-in-container', k, lambda: pickle.loads(pickle.dumps((a, [a])))[1][0])
+            try:
+                f = formula([(1, a) for _, a in g])
+            except Exception:
+                continue                        # building the formula is not the subject here
+            for route, fn in (('pickle-in-formula', lambda: pickle.loads(pickle.dumps(f))),
+                              ('deepcopy-in-formula', lambda: copy.deepcopy(f))):
+                try:
+                    back = [x for _, x in fn().structure]
+                    if len(back) != len(g):
+                        raise ValueError('the restored formula has %%d atoms, not %%d' %% (len(back), len(g)))
+                except Exception as e:
+                    obs.append((route, (label,) + g[0][0], e))
+                    continue
+                obs.extend((route, (label,) + k3, x) for (k3, _), x in zip(g, back))
+    return obs
+ledger = {}
+"""
+TAB_EVENT_CODE = "constructed = construct(%(label)r, %(expr)s)"
+TAB_CHECK = """for route, key, obj in battery(%(rnd)d, %(full)s):
+    if isinstance(obj, Exception):
+        print('RAISES', route, key, repr(obj)); raise SystemExit(1)
+    if atomkey(obj) != key[-3:]:
+        print('WRONG ATOM for', key, ':', route, 'returned', repr(obj), atomkey(obj)); raise SystemExit(1)
+    if key in ledger and ledger[key][0] is not obj:
+        print('DIFFERENT OBJECT for', key, ':', route, 'returned', repr(obj), hex(id(obj)), 'of table', repr(obj.table),
+              'but', ledger[key][1], 'had returned', repr(ledger[key][0]), hex(id(ledger[key][0])))
+        raise SystemExit(1)
+    ledger.setdefault(key, (obj, route))
+"""
+TAB_RESTORE = ("pickle", "copy", "deepcopy", "deepcopy-in-container", "pickle-in-container", "pickle-in-formula",
+               "deepcopy-in-formula")
+
+
+def tab_snippet(hist, full_depth):
+    lines = [TAB_SETUP % dict(name=SEQ_TABLE), TAB_CHECK % dict(rnd=0, full="False")]
+    for i, label in enumerate(hist):
+        lines.append("# event %s" % label)
+        lines.append(TAB_EVENT_CODE % dict(label="N%d" % (i + 1), expr=TABLE_EVENT[label]))
+        lines.append("print(%r, '->', repr(constructed))" % label)
+        lines.append(TAB_CHECK % dict(rnd=i + 1, full="not isinstance(constructed, (Exception, type(None)))"
+                                      if i + 1 <= full_depth else "False"))
+    lines.append("print('every atom of every live table was restored to itself')")
+    return "\n".join(lines)
+
+
+def tab_state():
+    load_pt()
+    ns = {}
+    try:
+        _ex(TAB_SETUP % dict(name=SEQ_TABLE), ns)
+    except Exception as e:
+        raise MachineryError("cannot build table %r: %s: %s" % (SEQ_TABLE, type(e).__name__, e))
+    if not isinstance(ns["T"], ns["core"].PeriodicTable):
+        raise MachineryError("cannot build table %r: %r" % (SEQ_TABLE, ns["T"]))
+    ns["classes"] = []            # class of every construction that succeeded so far
+    return ns
+
+
+def tab_battery(ns, hist, full_depth, acc, changed=False):
+    """Run the battery in the state reached by `hist` and check it against the ledger; True = explore on.
+    All atoms (instead of the fixed set) after one of the first `full_depth` events, if it constructed a table."""
+    rnd = len(hist)
+    full = bool(changed) and 0 < rnd <= full_depth
+    case = dict(part="tables", history=list(hist), full_depth=full_depth)
+    klass = ns["classes"][-1] if ns["classes"] else "none"
+    try:
+        obs = _ev("battery(%d, %r)" % (rnd, full), ns)
+    except Exception as e:
+        acc.violation("route-raises:after-table-construction:%s:lookup" % klass, case, "the atoms", _exc(e),
+                      standalone=tab_snippet(hist, full_depth))
+        return False
+    ledger = ns["ledger"]
+    names = dict((l, n) for l, _, n in ns["live"])
+    acc.transitions += len(obs)
+    bad = set()
+    for route, key, obj in obs:
+        what = "restore" if route in TAB_RESTORE else "lookup"
+        if isinstance(obj, Exception):
+            sig = "route-raises:after-table-construction:%s:%s" % (klass, what)
+            if sig not in bad:
+                bad.add(sig)
+                acc.violation(sig, dict(case, table=key[0], atom=list(key[1:]), route=route), "the atom", _exc(obj),
+                              standalone=tab_snippet(hist, full_depth))
+            continue
+        try:
+            got = (obj.number, getattr(obj, "isotope", 0), getattr(obj, "charge", 0))
+        except Exception as e:
+            got = _exc(e)
+        old = ledger.get(key)
+        if got != key[1:] and (old is None or old[0] is obj):
+            sig = "fields:after-table-construction:%s:%s" % (klass, what)
+            if sig not in bad:
+                bad.add(sig)
+                acc.violation(sig, dict(case, table=key[0], atom=list(key[1:]), route=route), "Z, A, charge == %r" % (key[1:],),
+                              repr(got), standalone=tab_snippet(hist, full_depth))
+            continue
+        if old is None:
+            ledger[key] = (obj, route, rnd)
+        elif old[0] is not obj:
+            sig = "identity-after-table-construction:%s:%s" % (klass, what)
+            if sig not in bad:
+                bad.add(sig)
+                acc.violation(sig, dict(case, table=key[0], atom=list(key[1:]), route=route),
+                              "the object that %s returned for %r of table %s (named %r) after %d construction event(s)"
+                              % (old[1], key[1:], key[0], names.get(key[0]), old[2]),
+                              "%r (id %#x, an atom of a table named %r) is not %r (id %#x); live tables: %r"
+                              % (obj, id(obj), getattr(obj, "table", "?"), old[0], id(old[0]), sorted(names.items())),
+                              standalone=tab_snippet(hist, full_depth))
+    if bad:
+        acc.outcome("tables:restore:VIOLATION")
+        return False
+    acc.outcome("tables:%s:%d-live-tables:same-objects" % ("all-atoms" if full else "fixed-atoms", len(names)))
+    return True
+
+
+def tab_event(ns, hist, full_depth, acc):
+    """Execute the last event of `hist` (a construction) and the battery; True = explore on."""
+    label = hist[-1]
+    expr = TABLE_EVENT[label]
+    acc.transitions += 1
+    try:
+        name = _ev(expr, ns)
+        klass = label
+        for l, _, n in ns["live"]:
+            if n == name:
+                klass = "public-name" if l == "P" else "same-name"
+        _ex(TAB_EVENT_CODE % dict(label="N%d" % len(hist), expr=expr), ns)
+    except Exception as e:
+        raise MachineryError("C08 table event %s failed: %r" % (label, e))
+    made = ns["constructed"]
+    if isinstance(made, Exception):
+        if klass == "other-name":
+            raise MachineryError("cannot build a table under the fresh name %r: %r" % (name, made))
+        acc.outcome("tables:%s:refused-%s" % (klass, type(made).__name__))
+    elif made is None:
+        acc.outcome("tables:%s:returned-the-existing-table" % klass)
+    else:
+        acc.outcome("tables:%s:constructed" % klass)
+        ns["classes"].append(klass)
+    # all atoms only where the set of live tables has changed (otherwise the state is the one before the event)
+    changed = made is not None and not isinstance(made, Exception)
+    ok = tab_battery(ns, hist, full_depth, acc, changed)
+    if ok:
+        acc.states += 1
+        if changed:
+            acc.nontrivial += 1           # the name registry changed and earlier atoms were restored afterwards
+    return ok
+
+
+def _tab_explore(ns, hist, depth, full_depth, labels, acc):
+    for label in labels:
+        h2 = hist + (label,)
+        def child(h2=h2):
+            a = Acc()
+            if tab_event(ns, h2, full_depth, a) and len(h2) < depth:
+                _tab_explore(ns, h2, depth, full_depth, labels, a)
+            if len(h2) == depth and labels.index(h2[-1]) == 0:
+                a.sample(dict(part="tables", history=list(h2), full_depth=full_depth))
+            return a
+        acc.merge(_in_fork(child))
+
+
+def _tab_shard(args):
+    first, depth, full_depth, labels, root = args
+    gc.disable()
+    acc = Acc()
+    ns = tab_state()
+    ok = tab_battery(ns, (), full_depth, acc if root else Acc())
+    if root and ok:
+        acc.states += 1
+    if ok and tab_event(ns, (first,), full_depth, acc) and depth > 1:
+        _tab_explore(ns, (first,), depth, full_depth, labels, acc)
+    acc.evaluations = acc.traces = acc.transitions
+    acc.count("table_construction_histories", sum(len(labels) ** k for k in range(depth)))
+    return acc
+
+
+def _mixed_shard(args):
+    return _tab_shard(args[1]) if args[0] == "tables" else _seq_shard(args[1])
+
+
+def run_tab_path(hist, full_depth, acc):
+    """One construction history, sequentially, on a fresh interpreter state (used by replay, inside a fork)."""
+    ns = tab_state()
+    if not tab_battery(ns, (), full_depth, acc):
+        return
+    for i in range(len(hist)):
+        if not tab_event(ns, tuple(hist[:i + 1]), full_depth, acc):
+            break
+    acc.evaluations = acc.traces = acc.transitions
+
+
 def run(ctx):
     jobs = max(2, ctx.jobs)          # always forked: the parent's PRIVATE_TABLES must not grow
     load_pt()                        # imported once; the workers inherit an untouched public table
@@ -1156,13 +1444,20 @@ def run(ctx):
     plen = 2
     shards = [(prefix, depth, labels) for prefix in itertools.product(labels, repeat=plen)]
     ctx.acc.states += 1        # the root: a fresh table, no event
-    for acc in common.pmap(_seq_shard, shards, jobs, "C08 sequences"):
+    # table-construction histories: quick = length <= 2 (all atoms after the first event), thorough = length <= 3
+    # (all atoms after the first two events); their few, long shards run alongside the sequence shards
+    tdepth, tfull = (2, 1) if ctx.quick else (3, 2)
+    tlabels = tuple(TABLE_EVENTS[i][0] for i in rotate(list(range(len(TABLE_EVENTS))), ctx.seed))
+    mixed = [("tables", (l, tdepth, tfull, tlabels, i == 0)) for i, l in enumerate(tlabels)] + [("seq", a) for a in shards]
+    for acc in common.pmap(_mixed_shard, mixed, jobs, "C08 sequences + tables"):
         ctx.acc.merge(acc)
+    ctx.acc.info["table_construction_depth"] = tdepth
     for k, what in (("restore_first_not_applicable", "sweep variant restore-first"),
                     ("unpickle_first_not_applicable", "sequence event unpickle-first")):
         if ctx.acc.info.get(k):
             ctx.acc.cap("%s not applicable to this implementation in %d cases (the renamed pickle is not "
                         "what the library writes)" % (what, ctx.acc.info[k]))
+    ctx.log("sequences and table constructions done: %d violations" % ctx.acc.vcount)
     names = [n for n, _ in LOADERS]
     hists = [(a,) for a in names] + [(a, b) for a in names for b in names]
     if not ctx.quick:
@@ -1189,6 +1484,14 @@ def _replay(acc, case):
     if case.get("part") == "sequence":
         run_path(tuple(case["history"]), acc)
         return
+    if case.get("part") == "tables":
+        from ..histmc import in_fork
+        def go():
+            a = Acc()
+            run_tab_path(tuple(case["history"]), int(case.get("full_depth", 1)), a)
+            return a
+        acc.merge(in_fork(go))
+        return
     if case.get("part") == "loaders":
         from ..histmc import in_fork
         acc.merge(in_fork(lambda: _loader_path((tuple(case["history"]),))))
@@ -1196,7 +1499,7 @@ def _replay(acc, case):
     if case.get("part") != "sweep":
         raise MachineryError("unknown case %r" % (case,))
     sw = Sweep(case["table"], case["variant"], "s" + b36(0, 5), "r" + b36(0, 5), acc)
-    if case.get("table_wide") or "Z" not in case:
+    if case.get("table_wide") or "Z" not in case or case.get("route") == "table[Z]":
         sw.table_wide()
     else:
         sw.element(case["Z"])
